@@ -1531,9 +1531,19 @@ def ecdh(spec, ctx, ec):
                     ctx.count("ecdh_refused_at_agreement:" + name)
                     ctx.count("ecdh_refused:" + name)
 
+    from vf.ctx import innermost_lib_frame
     while True:
         for name in curves:
-            one_round(name)
+            try:
+                one_round(name)
+            except Exception as e:      # noqa
+                # every input of a round is a valid key / scalar: an exception that escapes from inside the library
+                # while keys are built (construct, public_key, pointQ) is a finding, anything else a monitor bug
+                frame = innermost_lib_frame(e)
+                if frame is None:
+                    raise
+                ctx.check(False, "ecdh:%s:key-setup-exception-%s:%s" % (name, type(e).__name__, frame[1]),
+                          "building valid ECDH keys raised inside the library", {"curve": name, "exc": repr(e), "frame": frame})
         if ctx.expired():
             break
 
